@@ -52,6 +52,14 @@ fn child(args: &[String]) -> i32 {
             let inputs = pcase_json(&c);
             emit(format!("B\t{}\t{}\t{}", idx, kind, inputs));
             let r = rust_flow(&c);
+            // the cases of a batch share this thread: start every case with an empty last-error slot
+            unsafe {
+                let src = cs("rule clear_slot { condition: true }");
+                let mut tmp: *mut YRX_RULES = null_mut();
+                yrx_compile(src.as_ptr(), &mut tmp);
+                yrx_rules_destroy(tmp);
+                assert!(slot().is_none(), "a successful yrx_compile did not clear the last error");
+            }
             let mut rec = Rec::new(0);
             let cd = unsafe { c_flow(&c, &mut rec) };
             let mut pairs = vec![];
